@@ -1,8 +1,49 @@
-"""C06 -- a saved image reloads to the same volume (reload oracle after every 4th step and at the end of each history)"""
+"""C06 -- a saved image reloads to the same volume (reload oracle after every 4th step and at the end of each history), and the image file
+loads under any name: with its usual extension, with another known one that fits, and with an extension a2kit does not know."""
+import os, tempfile, shutil
+import framework as fw
 import fscommon
+
+NEEDS_BINS = True
+
+
+def file_name_scenarios(ctx):
+    """the same image bytes under other file names: an unknown extension means "no hint", whatever its spelling (also one that happens to
+    be part of a known extension, like .1, .o, .mg, .im)"""
+    import cliutil
+    from cliutil import run as cli
+    d = tempfile.mkdtemp(dir=fw.BUILD)
+    try:
+        for osn, ty, kind, extra in [('prodos', 'po', '5.25in', ['-v', 'VOL']), ('dos33', 'woz2', '5.25in', ['-v', '254']), ('fat', 'img', '3.5in-ibm-720', []),
+                                     ('cpm2', 'imd', '8in', []), ('pascal', 'do', '5.25in', ['-v', 'VOL'])]:
+            p = os.path.join(d, f'{osn}.{ "woz" if ty.startswith("woz") else ty}')
+            if cli(['mkdsk', '-o', osn, '-t', ty, '-k', kind, '-d', p] + extra)[0] != 0:
+                continue
+            name = 'HELLO.TXT' if osn in ('fat', 'cpm2') else 'HELLO'
+            cli(['put', '-d', p, '-f', name, '-t', 'txt'], stdin=b'HELLO\n')
+            rc0, want, _ = cli(['catalog', '-d', p, '--generic'])
+            for ext in ['1', '2', 'o', 'd', 'mg', 'im', 'xyz', 'bak', 'IMAGE']:
+                q = os.path.join(d, f'side-{osn}.{ext}')
+                shutil.copyfile(p, q)
+                rc, got, err = cli(['catalog', '-d', q, '--generic'])
+                ctx.evaluations += 1
+                if rc != rc0 or got != want:
+                    ctx.failures.append({'cls': f'file-name:{osn}:{ty}', 'case': f'a2kit catalog -d side-{osn}.{ext} (a copy of the {ty} image)',
+                                         'detail': f'exit status {rc} (the original gives {rc0}); listing equal: {got == want}: {err.decode("utf-8", "replace")[-160:]}'})
+                else:
+                    ctx.nontrivial.add(f'{osn}:{ty} as .{ext}')
+                os.remove(q)
+    finally:
+        shutil.rmtree(d, ignore_errors=True)
+
 
 def run(ctx, model_ok=True):
     fscommon.standard_run(ctx, 'C06', opts='r', model_ok=model_ok)
+    file_name_scenarios(ctx)
 
 def replay(ctx, rp):
-    fscommon.replay(ctx, 'C06', rp)
+    f = rp.get('failure')
+    if f and f.get('cls', '').startswith('file-name:'):
+        file_name_scenarios(ctx)
+    else:
+        fscommon.replay(ctx, 'C06', rp)
